@@ -397,6 +397,220 @@ CHECKS["C02"]["run"] = diff_check(["select"], 6000, 100000,
     "as C01 with sibling blocks only, violating / non-violating rules on every block, one third of the cases with path arguments (every block of every matching file must be listed); targeted edit classes decide selected / content-modified per block; non-trivial = some change and some block listed")
 
 
+def cli_correspondence(rep, rows, component, limit, subs=("validate",), known=None):
+    """run the real binary on (a prefix of) the rows and compare exit status / stderr / stdout with the model"""
+    import cli as C
+    rows = [r for r in rows if "changes" not in r[0]][:limit]
+    def one(row):
+        case, impl, model = row
+        out = []
+        for sub in subs:
+            if sub == "validate":
+                res = C.run_case_cli(case)
+                out.append(("validate", C.outcome_validate(res), res))
+            else:
+                res = C.run_case_cli(case, sub="list")
+                out.append(("list", C.outcome_list(res), res))
+        return out
+    results = C.pmap(one, rows)
+    bad = 0
+    for (case, impl, model), outs in zip(rows, results):
+        for sub, cli_out, res in outs:
+            rep.evaluations += 1
+            rep.traces += 1
+            diffs = C.compare_cli_validate(cli_out, model) if sub == "validate" else C.compare_cli_list(cli_out, model)
+            rep.count(f"{component}:cli-{sub}:" + ("panic" if "panic" in cli_out else f"exit{cli_out.get('exit')}"))
+            if diffs:
+                if any(e.get("status") == "open" and K.known_matches(e, case, impl, model) for e in (known or [])):
+                    rep.count(f"{component}:cli-{sub}:known")
+                    continue
+                bad += 1
+                if bad <= 3:
+                    rep.violation({"property": rep.prop, "component": f"{component} (CLI {sub})",
+                                   "what": "the binary built from the current tree disagrees with the proved model",
+                                   "case": case, "cli": {k: v for k, v in res.items()}, "model": model,
+                                   "differences": [{"field": f, "cli": a, "model_and_spec": b} for f, a, b in diffs]})
+    if bad > 3:
+        print(f"  ({bad} disagreeing CLI runs in {component})")
+    return bad
+
+
+def oracle_exit_severity(case, impl):
+    """C11: exit 1 exactly when a diagnostic of severity error exists (or the run erred)"""
+    if "panic" in impl:
+        return [f"panic: {impl['panic']}"]
+    if "err" in impl.get("ctx", {}) or "err" in impl.get("run", {}):
+        return [] if impl.get("exit") == 1 else ["error outcome but exit status is not 1"]
+    diags = impl.get("run", {}).get("diags", [])
+    want = 1 if any(d["severity"] == 1 for d in diags) else 0
+    probs = []
+    if impl.get("exit") != want:
+        probs.append(f"exit {impl.get('exit')} but severities are {[d['severity'] for d in diags]}")
+    for d in diags:
+        if d["severity"] not in (1, 2, 3, 4):
+            probs.append(f"severity {d['severity']} outside 1..4")
+    return probs
+
+
+def multi_check(flags, quick_n, thorough_n, cli_quick, cli_thorough, rule, subs, extra=None):
+    def run(rep, tier, seed, tr):
+        n = n_for(tier, quick_n, thorough_n)
+        rep.rules.append(rule)
+        comp = "multi flags" if flags else "multi"
+        rows = K.run_component(rep.prop, comp, [], seed, n, tier)
+        def nontrivial(case, impl, model):
+            return len(impl.get("run", {}).get("diags", [])) >= 1 or "err" in impl.get("run", {})
+        K.correspondence(rep, rows, comp, nontrivial, known=K.load_known(rep.prop), oracle=oracle_exit_severity)
+        cli_correspondence(rep, rows, comp, n_for(tier, cli_quick, cli_thorough), subs=subs, known=K.load_known(rep.prop))
+        if extra:
+            extra(rep, tier, seed, rows)
+    return run
+
+
+def c14_flag_errors(rep, tier, seed, rows):
+    """both flags together / an unknown validator are rejected before anything is validated"""
+    import cli as C
+    import random
+    rnd = random.Random(seed)
+    names = [n for n, _ in []] or ["affects", "keep-sorted", "keep-unique", "line-pattern", "line-count", "check-ai", "check-lua"]
+    scen = []
+    for k in range(24 if tier == "quick" else 120):
+        case = rows[k % len(rows)][0]
+        kind = k % 3
+        if kind == 0:
+            args = ["-e", rnd.choice(names), "-d", rnd.choice(names)]
+        elif kind == 1:
+            args = [rnd.choice(["-e", "-d"]), rnd.choice(["keep-sort", "KEEP-SORTED", "", "all", "check_lua", " keep-unique"])]
+        else:
+            args = ["-d", rnd.choice(names), "--enable", rnd.choice(names), "-d", rnd.choice(names)]
+        scen.append((case, args))
+    def one(sc):
+        case, args = sc
+        root = C.tmp_root()
+        try:
+            # an unbalanced file: if anything were parsed the error text would mention it
+            C.materialise(root, [(f["path"], f["text"]) for f in case["files"]] + [("zz_unbalanced.py", "# <block name=\"never-closed\">\n")])
+            return C.run_bw(root, args, env={"BLOCKWATCH_TERMINAL_MODE": "1"})
+        finally:
+            import shutil
+            shutil.rmtree(root, ignore_errors=True)
+    for (case, args), res in zip(scen, C.pmap(one, scen)):
+        rep.evaluations += 1
+        rep.count("flag-errors:" + str(res["exit"]))
+        ok = res["exit"] not in (0, None) and "panicked" not in res["stderr"] and "not closed" not in res["stderr"] and res["stdout"] == ""
+        if not ok:
+            rep.violation({"property": rep.prop, "component": "flag errors", "what": "invalid flag combination was not rejected up front",
+                           "args": args, "cli": res})
+
+
+CHECKS["C11"] = {
+    "module": "Bw.Props.C11", "needs_binary": True, "trusted_base": TB_COMMON + ["main.rs control flow is exercised through the real binary (exit status, stderr/stdout JSON), not modelled line by line"],
+    "run": multi_check(False, 4000, 60000, 250, 2500,
+        "1-4 files of mixed languages, 0-4 nested/sibling blocks each with 0-3 rules (violating or not) and every severity spelling; in-process run + the real binary (validate and list) on a prefix; non-trivial = at least one diagnostic or error",
+        ("validate", "list")),
+}
+CHECKS["C14"] = {
+    "module": "Bw.Props.C14", "needs_binary": True, "trusted_base": TB_COMMON + ["clap argument parsing (exercised through the binary)"],
+    "run": multi_check(True, 4000, 60000, 250, 2500,
+        "as C11 plus a random subset of the seven validators (with repeats) given to --enable or to --disable; the model filters the detector table regenerated from the source; invalid combinations (both flags, unknown names) must be rejected before any file is parsed",
+        ("validate",), extra=c14_flag_errors),
+}
+
+
+def oracle_fail_closed(case, impl):
+    """C13: a malformed rule never crashes; an error always exits 1"""
+    if "panic" in impl:
+        return [f"panic: {impl['panic']}"]
+    if ("err" in impl.get("run", {}) or "err" in impl.get("ctx", {})) and impl.get("exit") != 1:
+        return ["error outcome but exit status is not 1"]
+    if "err" in impl.get("run", {}) and impl["run"]["err"][0] == "other":
+        return [f"unclassified error: {impl['run'].get('msg')}"]
+    return []
+
+
+def c13_run(rep, tier, seed, tr):
+    rep.rules.append("rule kind (keep-sorted, keep-unique, line-pattern, line-count, affects, check-lua, check-ai) x malformation of its attribute value (empty, blanks, wrong case, trailing garbage, overflow, unbalanced brackets, missing colon, missing script, missing key) on a block among filler comments, plus unknown severities; every case malformed; in-process + the real binary on a prefix; non-trivial = the block parsed")
+    per = n_for(tier, 1500, 20000)
+    for kind in ["keep-sorted", "keep-unique", "line-pattern", "line-count", "affects", "check-lua", "check-ai"]:
+        rows = K.run_component(rep.prop, f"val {kind} malformed", [], seed, per, tier)
+        K.correspondence(rep, rows, f"val {kind} malformed", has_blocks, known=K.load_known(rep.prop), oracle=oracle_fail_closed)
+        cli_correspondence(rep, rows, f"val {kind} malformed", n_for(tier, 40, 400), subs=("validate",), known=K.load_known(rep.prop))
+
+
+CHECKS["C13"] = {
+    "module": "Bw.Props.C13", "needs_binary": True,
+    "trusted_base": TB_COMMON + ["Lua interpreter / HTTP client failures are outcome oracles of the model (the real code is run for: missing script, invalid check-lua-pattern, missing API key)"],
+    "run": c13_run,
+}
+
+
+def permute_diff(diff, rnd):
+    parts = diff.split("diff --git ")
+    head, secs = parts[0], ["diff --git " + x for x in parts[1:]]
+    rnd.shuffle(secs)
+    return head + "".join(secs)
+
+
+def c20_run(rep, tier, seed, tr):
+    import cli as C, random, shutil as _sh
+    rep.rules.append("generated repositories (multi-file rule sets; diff edit scripts): the binary is run 7 times per case - repeated (fresh hash seeds), pinned to one core, 1 and 16 runtime workers, files created in reverse order, diff file sections permuted, started from a subdirectory - and every canonical outcome must equal the first and the model's; in-process runs walk the files in shuffled order; non-trivial = at least one diagnostic or listed block")
+    n = n_for(tier, 3000, 40000)
+    k = n_for(tier, 60, 600)
+    rnd = random.Random(seed)
+    for comp in ["multi", "diff drift"]:
+        rows = K.run_component(rep.prop, comp, [], seed, n, tier)
+        def nontrivial(case, impl, model):
+            return has_blocks(case, impl, model)
+        K.correspondence(rep, rows, comp, nontrivial, known=K.load_known(rep.prop))
+        sel = [r for r in rows if "err" not in r[2].get("ctx", {})][:k]
+        def variants(case):
+            subdirs = sorted({os.path.dirname(f["path"]) for f in case["files"] if "/" in f["path"]})
+            sub = subdirs[0] if subdirs else "subdir"
+            order = list(range(len(case["files"])))[::-1]
+            vs = [("base", {}), ("repeat", {}), ("one-core", {"prefix": ["taskset", "-c", "0"]}),
+                  ("workers-1", {"env_extra": {"TOKIO_WORKER_THREADS": "1"}}), ("workers-16", {"env_extra": {"TOKIO_WORKER_THREADS": "16"}}),
+                  ("reverse-creation", {"order": order}), ("subdir", {"cwd_rel": sub})]
+            return vs
+        def one(row):
+            case = row[0]
+            outs = []
+            for name, kw in variants(case):
+                res = C.run_case_cli(case, **kw)
+                outs.append((name, C.outcome_validate(res), res))
+            if case.get("diff"):
+                c2 = dict(case); c2["diff"] = permute_diff(case["diff"], random.Random(len(case["diff"])))
+                res = C.run_case_cli(c2)
+                outs.append(("diff-permuted", C.outcome_validate(res), res))
+            return outs
+        for (case, impl, model), outs in zip(sel, C.pmap(one, sel)):
+            base = None
+            for name, out, res in outs:
+                rep.evaluations += 1
+                rep.traces += 1
+                rep.count(f"{comp}:cli:{name}")
+                key = K.canon({"exit": out.get("exit"), "diags": sorted(K.canon(d) for d in out.get("run", {}).get("diags", [])),
+                               "err": (out.get("run", {}).get("err") or out.get("ctx", {}).get("err") or [None])[0] if ("err" in out.get("run", {}) or "err" in out.get("ctx", {})) else None,
+                               "panic": out.get("panic")})
+                diffs = C.compare_cli_validate(out, model)
+                known = any(e.get("status") == "open" and K.known_matches(e, case, impl, model) for e in K.load_known(rep.prop))
+                if base is None:
+                    base = key
+                if (key != base or diffs) and not known:
+                    rep.violation({"property": rep.prop, "component": f"{comp} (CLI variant {name})",
+                                   "what": "outcome differs between two runs of the same input, or from the model",
+                                   "case": case, "variant": name, "cli": res, "first_run": json.loads(base), "model": model,
+                                   "differences": [{"field": f, "cli": a, "model_and_spec": b} for f, a, b in diffs]})
+                    break
+
+
+CHECKS["C20"] = {
+    "module": "Bw.Props.C20", "needs_binary": True,
+    "level_note": DEFAULT_LEVEL_NOTE + " Partial: real thread / task interleavings and hash seeds are sampled by repeated runs; the theorems cover every permutation of the model's file order.",
+    "trusted_base": TB_COMMON + ["hash-map iteration order and thread completion order are modelled as arbitrary permutations; the OS scheduler is exercised, not modelled"],
+    "run": c20_run,
+}
+
+
 def replay(prop, path):
     """re-run one recorded case against the current tree and the model; print both outcomes"""
     data = json.load(open(path))
